@@ -411,6 +411,15 @@ func (r *Report) rescueRenamed(haveKey map[string]bool) {
 	if r.W == nil {
 		return
 	}
+	// keys whose own obligation was not discharged by the rule itself: an entry whose key is
+	// produced by a proven obligation is free (a rename elsewhere can move a proven construct
+	// onto the ordinal of a reviewed one)
+	needsEntry := map[string]bool{}
+	for _, o := range r.Obls {
+		if o.Status != StOK {
+			needsEntry[o.Key] = true
+		}
+	}
 	for i := range r.Obls {
 		o := &r.Obls[i]
 		if o.Status != StViolation || len(o.need) == 0 {
@@ -452,8 +461,8 @@ func (r *Report) rescueRenamed(haveKey map[string]bool) {
 				if j := strings.LastIndex(base, "#"); j >= 0 && strings.Contains(ttail, "#") {
 					base = base[:j]
 				}
-				if haveKey[base] {
-					continue // the entry's own construct still exists
+				if haveKey[base] && needsEntry[base] {
+					continue // the entry's own construct still exists and still needs it
 				}
 				tord, tclass, _ := strings.Cut(ttail, "#")
 				ord, class, _ := strings.Cut(tail, "#")
